@@ -4,10 +4,11 @@
    ckd_commute / path_split hold for every commutative group with Z-action and generator of order n
    (premise [group_laws]); the secp256k1 instance of Crypto/Secp256k1.v is NOT proved to satisfy it, so
    their *_secp forms keep the premise.  Everything else is premise-free. *)
+From Coq Require Import String.
 From Coq Require Import ZArith List Bool.
 From Coq.Strings Require Import Byte.
 From Verif Require Import Lib.Bytes Crypto.Sha256 Crypto.Ripemd160 Crypto.Hmac Crypto.Secp256k1 Crypto.Group
-  Model.Bip32 Proofs.Bip32Algebra Proofs.Bip32Lib.
+  Model.Bip32 Proofs.Bip32Algebra Proofs.Bip32Lib Proofs.Bip32Session.
 From Verif Require Import Gen.GenBip32 Proofs.Bip32Glue.
 Import ListNotations.
 Open Scope Z_scope.
@@ -33,6 +34,27 @@ Proof.
         (conj gen_child_public_guard_eq (conj gen_markers_eq (conj gen_marked_guard_eq (conj gen_negative_guard_eq
         (conj gen_bare_M_public_eq gen_step_eq))))))))).
 Qed.
+
+(* --- tie: the derivation methods keep no state.  Read from /repo on this run: what from_seed, _key_derivation,
+   fingerprint, subkey_for_path, child_private, child_public write outside their local variables (nothing), the
+   memoised renderings of the immutable public key, the attributes HDKey.__init__ sets (no cache among them), what
+   public() clears on its deepcopy, and the wallet settings public_master / network_change write on self — the
+   session model (lib_session, cfg_after) has exactly this state --- *)
+Theorem source_is_stateless :
+  gen_derivation_writes = [] /\
+  gen_key_lazy_writes = ["x: self._x"%string; "y: self._y"%string; "y: self._public_uncompressed_hex"%string;
+                         "hash160: self._hash160"%string] /\
+  gen_hdkey_init_writes = ["self.script_type"%string; "self.encoding"%string; "self.witness_type"%string;
+                           "self.multisig"%string; "self.chain"%string; "self.depth"%string;
+                           "self.parent_fingerprint"%string; "self.child_index"%string; "self.key_type"%string] /\
+  gen_public_copy = "hdkey = deepcopy(self)"%string /\
+  gen_public_writes = ["hdkey.is_private"%string; "hdkey.secret"%string; "hdkey.private_hex"%string;
+                       "hdkey.private_byte"%string; "hdkey._wif"%string; "hdkey._wif_prefix"%string;
+                       "hdkey.key_hex"%string] /\
+  gen_public_master_writes = ["self.multisig"%string; "self.witness_type"%string] /\
+  gen_public_master_multisig_writes = [] /\
+  gen_network_change_writes = ["self.network"%string].
+Proof. exact gen_state_eq. Qed.
 
 (* ================================================================ algebra (premise: group laws) *)
 
@@ -213,6 +235,81 @@ Theorem wif_is_serialization :
      lib_wif v a X = option_map b58check_111 (s_ser_pub v (pub_part X))).
 Proof. exact (conj lib_wif_private_is_spec lib_wif_public_is_spec). Qed.
 
+(* wif(child_index=n) is the serialization with child number n in place of the key's own, and wif() that of the key *)
+Theorem wif_child_index_is_serialization :
+  (forall v a X, lib_wif_index v a X None = lib_wif v a X) /\
+  (forall v X n,
+     lib_wif_index v true (XPrv X) (Some n) =
+       option_map b58check_111 (s_ser_prv v {| xk := xk X; xc := xc X; xm := with_index (xm X) n |}) /\
+     forall a Y, a = false \/ lib_is_private Y = false ->
+       lib_wif_index v a Y (Some n) = option_map b58check_111 (s_ser_pub v (pub_part (lib_with_index Y n)))).
+Proof. exact (conj lib_wif_index_none lib_wif_index_is_spec). Qed.
+
+(* ================================================================ sessions: many calls on one HDKey object *)
+
+(* Every answer of a session is the stateless function of the key material of the object the request names:
+   [slot_key (session_slots X reqs) s] is ONE key per slot for the whole session (slot 0 the start key, slot k+1
+   the key request k returned), the named object keeps exactly that key after the call, and the key returned is
+   lib_subkey_for_path / lib_child_private / lib_child_public / lib_public / lib_public_master ([op_key]) of it
+   — whatever was called before, on this object or on any other.  The settings [c] (network, witness_type,
+   multisig: what network_change and public_master write on the object) enter only public_master's choice of
+   the account path. *)
+Theorem derivation_session_is_function :
+  forall X reqs k r a,
+    nth_error reqs k = Some r -> nth_error (lib_session X reqs) k = Some a -> (rq_slot r <= k)%nat ->
+    match slot_key (session_slots X reqs) (rq_slot r) with
+    | None => an_target a = None /\ an_result a = RFail
+    | Some key =>
+        exists c, an_target a = Some {| ho_key := key; ho_cfg := c |} /\
+          ans_key a = op_key key c (rq_op r) /\
+          (an_result a = RSelf <-> op_self key (rq_op r) = true) /\
+          (forall o, an_result a = RNew o -> ho_cfg o = c)
+    end /\
+    slot_key (session_slots X reqs) (S k) = match an_result a with RNew o => Some (ho_key o) | _ => None end.
+Proof. exact session_is_function. Qed.
+
+Theorem session_start_is_key : forall X reqs, slot_key (session_slots X reqs) O = Some (ho_key X).
+Proof. exact session_start_key. Qed.
+
+(* no memory: the same call put twice to the same object returns the same key, whatever happened in between *)
+Theorem derivation_session_repeatable :
+  forall X reqs k1 k2 r a1 a2,
+    nth_error reqs k1 = Some r -> nth_error reqs k2 = Some r ->
+    nth_error (lib_session X reqs) k1 = Some a1 -> nth_error (lib_session X reqs) k2 = Some a2 ->
+    (rq_slot r <= k1)%nat -> (rq_slot r <= k2)%nat -> op_cfg_free (rq_op r) = true ->
+    ans_key a1 = ans_key a2.
+Proof. exact session_repeatable. Qed.
+
+(* one call on a public-only object: the result is public-only and a request that needs private material
+   (a hardened path element, marked or numeric; child_private; child_public(i >= 2^31); public_master) fails;
+   public(), child_public, "M/..." and public_master(as_private=False) return public-only objects from any key *)
+Theorem public_object_calls :
+  (forall k c op k', lib_is_private k = false -> op_key k c op = Some k' -> lib_is_private k' = false) /\
+  (forall k c op, op_needs_private op = true -> lib_is_private k = false -> op_key k c op = None) /\
+  (forall k c op k', op_makes_public op = true -> op_key k c op = Some k' -> lib_is_private k' = false).
+Proof. exact (conj op_key_public_closed (conj op_needs_private_fails op_makes_public_sound)). Qed.
+
+(* for every start key X and every session: a request put to an object that is public-only by construction
+   (X itself if public-only, a public() copy, a child_public / "M/..." / public_master result, and anything
+   obtained from one of these — [session_public_marks]) leaves that object public-only, returns no private
+   material, and fails if it needs private material; nothing derived earlier from the private original changes that *)
+Theorem public_copy_never_private :
+  forall X reqs k r a,
+    nth_error reqs k = Some r -> nth_error (lib_session X reqs) k = Some a -> (rq_slot r <= k)%nat ->
+    nth (rq_slot r) (session_public_marks X reqs) false = true ->
+    (forall o, an_target a = Some o -> lib_is_private (ho_key o) = false) /\
+    (forall key, ans_key a = Some key -> lib_is_private key = false) /\
+    (op_needs_private (rq_op r) = true -> an_result a = RFail).
+Proof. exact session_public. Qed.
+
+Theorem public_marks_are :
+  forall X reqs,
+    nth O (session_public_marks X reqs) false = negb (lib_is_private (ho_key X)) /\
+    forall k r, nth_error reqs k = Some r -> (rq_slot r <= k)%nat ->
+      nth (S k) (session_public_marks X reqs) false =
+      op_makes_public (rq_op r) || nth (rq_slot r) (session_public_marks X reqs) false.
+Proof. exact session_marks_spec. Qed.
+
 (* ================================================================ examples *)
 
 Definition ex_chain : bytes := repeat x01 32.
@@ -253,6 +350,33 @@ Example numeric_hardened_is_marked :
   lib_subkey_for_path ex_key [x6d; x2f; x32; x31; x34; x37; x34; x38; x33; x36; x34; x38; x27] = None.
 Proof. split; vm_compute; reflexivity. Qed.
 
+(* a session on the key with secret 1: m/0' from the private original, a public() copy, the same path asked of
+   the copy (fails), child_private on the copy (fails), public_master on the copy (fails), "m" on the copy (the copy
+   itself, public), and m/0' from the original again (the same key as the first time) *)
+Definition ex_cfg : kcfg :=
+  {| kc_net := []; kc_coin := 0; kc_vprv := [x04; x88; xad; xe4]; kc_vpub := [x04; x88; xb2; x1e];
+     kc_wit := WLegacy; kc_multi := false |}.
+Definition ex_path0h : bytes := [x6d; x2f; x30; x27].
+Definition ex_session : list sreq :=
+  [ {| rq_slot := 0; rq_op := SPath ex_path0h |};
+    {| rq_slot := 0; rq_op := SPublic |};
+    {| rq_slot := 2; rq_op := SPath ex_path0h |};
+    {| rq_slot := 2; rq_op := SChildPriv 0 true |};
+    {| rq_slot := 2; rq_op := SMaster 0 None None None true |};
+    {| rq_slot := 2; rq_op := SPath [x6d] |};
+    {| rq_slot := 0; rq_op := SPath ex_path0h |} ].
+
+Example session_witness :
+  let a := lib_session {| ho_key := ex_key; ho_cfg := ex_cfg |} ex_session in
+  session_public_marks {| ho_key := ex_key; ho_cfg := ex_cfg |} ex_session =
+    [false; false; true; true; true; true; true; false] /\
+  map (fun x => match ans_key x with Some k => Some (lib_is_private k) | None => None end) a =
+    [Some true; Some false; None; None; None; Some false; Some true] /\
+  map (fun x => match an_result x with RNew _ => 1 | RSelf => 2 | RFail => 0 end) a = [1; 1; 0; 0; 0; 2; 1] /\
+  nth_error (map ans_key a) 0 = nth_error (map ans_key a) 6 /\
+  nth_error (map ans_key a) 1 = Some (Some ex_pub).
+Proof. vm_compute. repeat split. Qed.
+
 (* what the guard wf_key excludes: with an empty chain code the library keys the HMAC with
    "Bitcoin seed" (HDKey._key_derivation), which is not CKDpriv with an empty chain code *)
 Example empty_chain_refuted :
@@ -261,6 +385,7 @@ Example empty_chain_refuted :
 Proof. vm_compute. intros E. discriminate E. Qed.
 
 Print Assumptions source_is_model.
+Print Assumptions source_is_stateless.
 Print Assumptions ckd_commute.
 Print Assumptions path_split.
 Print Assumptions path_split_any.
@@ -281,3 +406,10 @@ Print Assumptions path_markers.
 Print Assumptions master_is_spec.
 Print Assumptions master_range.
 Print Assumptions wif_is_serialization.
+Print Assumptions derivation_session_is_function.
+Print Assumptions session_start_is_key.
+Print Assumptions derivation_session_repeatable.
+Print Assumptions public_object_calls.
+Print Assumptions public_copy_never_private.
+Print Assumptions public_marks_are.
+Print Assumptions wif_child_index_is_serialization.
